@@ -296,3 +296,57 @@ pub fn selftest() -> Result<(), String> {
     chk("sxy", p.sxy.to_f64(), -10.0)?;
     Ok(())
 }
+
+/// Cross-check of the oracle against tools/oracle_table.json (exact values computed
+/// with Python's fractions.Fraction, stored as double-double): agreement to 2^-90
+/// relative for means, central and absolute central moments up to order 10, sigma,
+/// weighted sums and co-moments.
+pub fn selftest_table(path: &std::path::Path) -> Result<usize, String> {
+    let text = std::fs::read_to_string(path).map_err(|e| format!("cannot read {}: {}", path.display(), e))?;
+    let v: serde_json::Value = serde_json::from_str(&text).map_err(|e| e.to_string())?;
+    let pf = |x: &serde_json::Value| -> f64 { x.as_str().unwrap().parse::<f64>().unwrap() };
+    let dd = |x: &serde_json::Value| -> Xf { Xf::from_f64(pf(&x[0])).add(&Xf::from_f64(pf(&x[1]))) };
+    let close = |name: &str, set: &str, got: &Xf, want: &Xf| -> Result<(), String> {
+        let d = got.sub(want).abs();
+        let ok = if want.is_zero() { d.is_zero() } else { d.div(&want.abs()).to_f64() <= 2f64.powi(-90) };
+        if ok {
+            Ok(())
+        } else {
+            Err(format!("oracle table mismatch in {} / {}: got {:e} want {:e} (relative difference {:e})", set, name, got.to_f64(), want.to_f64(), if want.is_zero() { f64::INFINITY } else { d.div(&want.abs()).to_f64() }))
+        }
+    };
+    let mut n_checked = 0usize;
+    for set in v.as_array().ok_or("table is not an array")? {
+        let name = set["name"].as_str().unwrap_or("?");
+        let xs: Vec<f64> = set["xs"].as_array().unwrap().iter().map(pf).collect();
+        let ex = exact_moments(&xs, 10);
+        close("mean", name, &ex.mean, &dd(&set["mean"]))?;
+        for p in 2..=10usize {
+            close(&format!("central({})", p), name, &ex.central(p), &dd(&set["central"][p.to_string()]))?;
+            close(&format!("abs_central({})", p), name, &ex.abs_central(p), &dd(&set["abs_central"][p.to_string()]))?;
+            n_checked += 2;
+        }
+        if let Some(sg) = set.get("sigma") {
+            close("sigma", name, &ex.sigma(), &dd(sg))?;
+        }
+        if let Some(ws) = set.get("ws") {
+            let ws: Vec<f64> = ws.as_array().unwrap().iter().map(pf).collect();
+            let ew = exact_weighted(&xs, &ws);
+            close("sum_w", name, &ew.sw, &dd(&set["sum_w"]))?;
+            close("sum_w2", name, &ew.sw2, &dd(&set["sum_w2"]))?;
+            if let Some(wm) = set.get("wmean") {
+                close("wmean", name, ew.wmean.as_ref().ok_or("no wmean")?, &dd(wm))?;
+                close("eff", name, ew.eff.as_ref().ok_or("no eff")?, &dd(&set["eff"]))?;
+            }
+            n_checked += 4;
+        }
+        if let Some(ys) = set.get("ys") {
+            let ys: Vec<f64> = ys.as_array().unwrap().iter().map(pf).collect();
+            let ps: Vec<(f64, f64)> = xs.iter().copied().zip(ys.iter().copied()).collect();
+            let ep = exact_pairs(&ps);
+            close("sxy", name, &ep.sxy, &dd(&set["sxy"]))?;
+            n_checked += 1;
+        }
+    }
+    Ok(n_checked)
+}
